@@ -123,7 +123,7 @@ pub fn plan_for(prop: &str, tier: Tier, seed: u64, verif_dir: &str) -> Option<Pl
 			seed,
 			jobs: vec![job("lnsim", "onchain", n(1000, 25000)), job("lnsim", "forward", n(400, 6000))],
 			level: "exploration".into(),
-			rule: "profiles `onchain` and `forward` (3 real nodes; channels are force-closed by either side at seeded points or by the stale-manager rule after crashes, with HTLCs pending in both directions; every remaining channel is force-closed in the liquidation phase and the chain is mined until every monitor has drained; anchor CPFP through BumpTransaction events served by a simulated wallet, transactions relayed to the mempool in seeded order and delay). The chain model verifies every broadcast transaction with libbitcoinconsensus against its UTXO set (scripts, amounts, locktime, BIP68) and applies mempool replacement rules. Oracles: C07-1 every broadcast tx is consensus-valid, final at the height it is offered for, and creates no money; C07-4 SpendableOutputs refer to confirmed outputs with the right value, are spendable by the node's keys (sweep verified by script) and claimable balances drain to nothing; wealth oracle; LDK's debug assertions in onchaintx.rs/package.rs count as oracle failures. One evaluation = one seeded run (config, schedule and faults all drawn from the run seed; replay executes the recorded action trace). non-trivial = the run executed at least one payment/HTLC to a terminal state or fired at least one fault; distinct = distinct FNV hash of the executed (action kind, actor) sequence.".into(),
+			rule: "profiles `onchain` and `forward` (3 real nodes; channels are force-closed by either side at seeded points or by the stale-manager rule after crashes, with HTLCs pending in both directions; a channel may also be closed by a node's previous, still unrevoked commitment (archived as in C06; that node then stops and its peer must cope); every remaining channel is force-closed in the liquidation phase and the chain is mined until every monitor has drained, under a seeded plan of confirmation delays, fee-estimator moves, shallow reorganisations and monitor reloads; anchor CPFP through BumpTransaction events served by a simulated wallet, transactions relayed to the mempool in seeded order and delay). The chain model verifies every broadcast transaction with libbitcoinconsensus against its UTXO set (scripts, amounts, locktime, BIP68) and applies mempool replacement rules. Oracles: C07-1 every broadcast tx is consensus-valid, final at the height it is offered for, and creates no money; C07-4 SpendableOutputs refer to confirmed outputs with the right value, are spendable by the node's keys (sweep verified by script) and claimable balances drain to nothing; wealth oracle; LDK's debug assertions in onchaintx.rs/package.rs count as oracle failures. One evaluation = one seeded run (config, schedule and faults all drawn from the run seed; replay executes the recorded action trace). non-trivial = the run executed at least one payment/HTLC to a terminal state or fired at least one fault; distinct = distinct FNV hash of the executed (action kind, actor) sequence.".into(),
 			assumptions: t_assumptions.clone(),
 			probes: vec![],
 			exhaustive: false,
